@@ -1937,3 +1937,40 @@ def short_fn_name(path):
         return "%s@%s::%s" % (ty, tr, m.group(3))
     parts = [q for q in re.sub(r"<[^<>]*>", "", path).split("::") if q]
     return "::".join(parts[-2:])
+
+
+def root_local(body, op, depth=0):
+    """follow `&`, reborrows and plain copies from an operand back to the user-level local"""
+    if op["k"] not in ("copy", "move"):
+        return None
+    pl = op["place"]
+    if any(e["k"] not in ("deref",) for e in pl["p"]):
+        return None
+    l = pl["l"]
+    if depth > 8:
+        return l
+    ds = [d for d in body.defs.get(l, []) if not d[2]]
+    if len(ds) == 1 and ds[0][1] != "term":
+        rv = body.blocks[ds[0][0]]["stmts"][ds[0][1]]["rv"]
+        if rv["k"] in ("ref", "rawptr") and not any(e["k"] != "deref" for e in rv["place"]["p"]):
+            return root_local(body, {"k": "copy", "place": rv["place"]}, depth + 1)
+        if rv["k"] == "use" and rv["op"]["k"] in ("copy", "move") and not any(e["k"] != "deref" for e in rv["op"]["place"]["p"]):
+            inner = root_local(body, rv["op"], depth + 1)
+            if inner is not None:
+                return inner
+    return l
+
+
+def loopfree(t):
+    """collapse loop-carried values: ('loop', n) and every phi with a loop-carried alternative
+    become the single symbol ('lc',) so that terms taken at different points of a loop compare equal"""
+    def f(x):
+        if x[0] == "loop":
+            return ("lc",)
+        if x[0] == "phi":
+            alts = [loopfree(y) for y in x[1]]
+            if any(contains(y, lambda s: s == ("lc",)) for y in alts):
+                return ("lc",)
+            return mk_phi(alts)
+        return None
+    return rewrite(t, f)
